@@ -57,6 +57,16 @@ class Runner:
         if cases_override is not None:
             with open(os.path.join(d, "cases.txt"), "w") as f:
                 f.write("".join(c + "\n" for c in cases_override))
+        elif tie.get("model_gen"):
+            # the cases (e.g. schedules) are enumerated / sampled by the extracted model itself
+            req = os.path.join(d, "gen_request.txt")
+            with open(req, "w") as f:
+                f.write("%d %d %d\n" % (seed % 1000000007, n, shard if corpus else 1))
+            rc, out = core.sh([core.DRIVER, tie["model_gen"], req], timeout=tie.get("timeout", 3000))
+            if rc != 0 or "MODEL-EXCEPTION" in out:
+                return d, "model case generator failed: " + out[-2000:]
+            with open(os.path.join(d, "cases.txt"), "w") as f:
+                f.write(out if out.endswith("\n") else out + "\n")
         else:
             rc, out = core.sh([binp, "gen", tie["key"], str(seed), str(n), d, str(shard if corpus else 1)],
                               timeout=tie.get("timeout", 3000))
